@@ -421,6 +421,17 @@ func genG02(repo string, w *Out) error {
 	if err != nil {
 		return err
 	}
+	// writeResponse may delegate to a variant taking extra arguments (return p.<name>(res, ...))
+	if len(wresp.Body.List) == 1 {
+		if rs, ok := wresp.Body.List[0].(*ast.ReturnStmt); ok && len(rs.Results) == 1 {
+			if ce, ok := rs.Results[0].(*ast.CallExpr); ok && len(ce.Args) >= 1 && pc.Src(ce.Args[0]) == "res" {
+				name := strings.TrimPrefix(pc.Src(ce.Fun), "p.")
+				if wresp, err = pc.Func("proxyConn." + name); err != nil {
+					return err
+				}
+			}
+		}
+	}
 	var closeIf, connIf, reframeIf string
 	var outerCases, innerCases []string
 	for _, s := range wresp.Body.List {
@@ -474,6 +485,12 @@ func genG02(repo string, w *Out) error {
 		w.DefBool("wr_close_when_closing", true)
 		w.DefBool("wr_close_when_req_close", true)
 		w.DefBool("wr_connect_keeps_open", true)
+		w.DefBool("wr_upgrade_keeps_open", false)
+	case "if p.closing() { res.Close = true } else { if req.Close { res.Close = true } if req.Method == http.MethodConnect && res.StatusCode/100 == 2 { res.Close = false } if res.StatusCode == http.StatusSwitchingProtocols { res.Close = false } }":
+		w.DefBool("wr_close_when_closing", true)
+		w.DefBool("wr_close_when_req_close", true)
+		w.DefBool("wr_connect_keeps_open", true)
+		w.DefBool("wr_upgrade_keeps_open", true)
 	default:
 		return fmt.Errorf("writeResponse: close decision %q is not a shape the model knows", closeIf)
 	}
@@ -593,4 +610,4 @@ func genG02(repo string, w *Out) error {
 }
 
 // the repair block of writeResponse the model knows (see RespFraming.reframe)
-const g02ReframeShape = `if res.ContentLength == -1 && !isHeaderOnlySpec(res) { switch { case !req.ProtoAtLeast(1, 1): res.TransferEncoding = nil res.Close = true case len(res.TransferEncoding) == 0 && !res.Close: if res.ProtoAtLeast(1, 1) { res.TransferEncoding = []string{"chunked"} } else { res.Close = true } } }`
+const g02ReframeShape = `if res.ContentLength == -1 && !isHeaderOnlySpec(res) && !(req.Method == http.MethodConnect && res.StatusCode/100 == 2) { switch { case !req.ProtoAtLeast(1, 1): res.TransferEncoding = nil res.Close = true case len(res.TransferEncoding) == 0 && !res.Close: if res.ProtoAtLeast(1, 1) { res.TransferEncoding = []string{"chunked"} } else { res.Close = true } } }`
